@@ -242,16 +242,39 @@ def f_sig(c, tt, nsup):
     return s
 
 
-def build_and_run_f(d, cases, with_class=True, nvals=4, options=None, extra_argv=(), fflags=()):
+def build_and_run_f(d, cases, with_class=True, nvals=4, options=None, extra_argv=(), fflags=(), language="c++"):
     import yaml
 
     os.makedirs(d, exist_ok=True)
     opts = dict({"wrap_fortran": True}, **(options or {}))
-    y, hpp, cpp = cgen.gen_library(cases, with_class, opts)
+    if language == "c":
+        # the same library declared and written as C (no namespace, no class): the Fortran API must be the same,
+        # so the driver source is the same apart from the module's name
+        from rt import libgen
+        with_class = False
+        y, hpp, cpp = cgen.gen_library(cases, False, opts, ns=None)
+
+        def fix(n):
+            if isinstance(n, dict):
+                return {k: fix(v) for k, v in n.items()}
+            if isinstance(n, list):
+                return [fix(v) for v in n]
+            return libgen.to_c(n) if isinstance(n, str) else n
+        y["language"] = "c"
+        y["cxx_header"] = "sub.h"
+        y["declarations"] = fix(y["declarations"])
+        hpp = libgen.to_c(hpp).replace("#include <string>", "#include <stdbool.h>").replace("#include <vector>", "")
+        hpp = hpp.replace("struct Pt { int x; double y; };", "struct Pt { int x; double y; };\ntypedef struct Pt Pt;")
+        cpp = libgen.to_c(cpp).replace('#include "sub.hpp"', '#include "sub.h"').replace("#include <cstring>", "#include <string.h>")
+        cpp = cpp.replace("#include <cstdio>", "#include <stdio.h>")
+        hname, sname = "sub.h", "sub.c"
+    else:
+        y, hpp, cpp = cgen.gen_library(cases, with_class, opts)
+        hname, sname = "sub.hpp", "sub.cpp"
     with open(os.path.join(d, "sub.yaml"), "w") as f:
         yaml.safe_dump(y, f, default_flow_style=False, sort_keys=False)
-    open(os.path.join(d, "sub.hpp"), "w").write(hpp)
-    open(os.path.join(d, "sub.cpp"), "w").write(cpp)
+    open(os.path.join(d, hname), "w").write(hpp)
+    open(os.path.join(d, sname), "w").write(cpp)
     out = os.path.join(d, "gen")
     os.makedirs(out, exist_ok=True)
     rc, so, se = shroudrun.run(["--outdir", out, "--logdir", out, "--ffiles", os.path.join(d, "ffiles.txt")] +
@@ -259,12 +282,15 @@ def build_and_run_f(d, cases, with_class=True, nvals=4, options=None, extra_argv
     if rc != 0:
         return {"traces": [], "problems": [("shroud", se[-800:])]}
     drv, calls = gen_f_driver(cases, nvals, with_class)
+    if language == "c":
+        drv = drv.replace("use sub_ns1_mod", "use sub_mod")
     open(os.path.join(d, "driver.f90"), "w").write(drv)
     inc = ["-I", d, "-I", out, "-I", HERE]
     objs = []
-    for s in [os.path.join(d, "sub.cpp")] + [os.path.join(out, f) for f in sorted(os.listdir(out)) if f.endswith(".cpp")]:
+    for s in [os.path.join(d, sname)] + [os.path.join(out, f) for f in sorted(os.listdir(out)) if f.endswith(".cpp") or f.endswith(".c")]:
         o = s + ".o"
-        rc, txt = cgen.sh(["g++", "-std=c++11", "-g", "-c", s, "-o", o] + inc, d)
+        cc = ["gcc", "-std=c99"] if s.endswith(".c") else ["g++", "-std=c++11"]
+        rc, txt = cgen.sh(cc + ["-g", "-c", s, "-o", o] + inc, d)
         if rc != 0:
             return {"traces": [], "problems": [("compile", txt[-1500:])]}
         objs.append(o)
